@@ -38,6 +38,9 @@ const (
 	// FaultSentinel: the storage answers with one reused error value of type *oidc.Error (storages commonly keep
 	// such errors in package-level variables); the library must not let one request's data travel in it to the next
 	FaultSentinel = "sentinel"
+	// FaultTimeoutFast: the storage gives up on its own (statement or RPC time-out shorter than the request's
+	// deadline) and reports an error that wraps context.DeadlineExceeded while the request context is still live
+	FaultTimeoutFast = "timeout-fast"
 )
 
 type ctxKeyReq struct{}
@@ -271,6 +274,7 @@ func (p publicKey) Key() any { return p.k.Pub }
 type ExchangePolicy struct {
 	DefaultType   oidc.TokenType // requested type when the request leaves it empty
 	Veto          bool           // refuse every exchange
+	VetoAt        string         // which callback says no: "" = ValidateTokenExchangeRequest, "create", "claims", "userinfo"
 	ImpersonateAs string         // non-empty: SetSubject to this user
 	DropScopes    []string       // scopes the policy removes
 	AllowedTypes  []oidc.TokenType
@@ -382,6 +386,8 @@ func (s *Store) faultErr(ctx context.Context, fault string) error {
 		return fmt.Errorf("simstore: %w", context.DeadlineExceeded)
 	case FaultSentinel:
 		return s.Sentinel
+	case FaultTimeoutFast:
+		return fmt.Errorf("simstore: statement timeout: %w", context.DeadlineExceeded)
 	default:
 		return ErrInjected
 	}
